@@ -90,7 +90,7 @@ def run(chk: core.Check):
     for e in cases:
         if e["cs"]["kind"] == "damp":
             c19.replay_damp(chk, e, rng)
-    r = c19.mc(chk, "MC_Stabilisers 3D damp", (6, 7, 9), {"damp"}, widths=(0, 1, 2) if tier == "quick" else (0, 1, 2, 3, 4), emit=True)
+    r = c19.mc(chk, "MC_Stabilisers 3D damp", (6, 7, 9), {"damp"}, widths=(0, 1, 2) if tier == "quick" else (0, 1, 2, 3), emit=True)   # zones of opposite sides must not overlap (2 w <= smallest extent)
     for e in _tlc.dedupe(r.emits):
         c19.replay_damp(chk, e, rng)
     c19.char_func(chk, tier == "quick")
